@@ -327,7 +327,7 @@ fn history(ctx: &mut Ctx, arena: &Arena, d: u32, ver: u32, l: usize, img: &[u8],
 fn run(ctx: &mut Ctx) {
     let arena = Arena::new(2);
     let quick = ctx.quick();
-    let lmax = if quick { 2 * 64 + 9 } else { 3 * 64 + 9 };
+    let lmax = if quick { 2 * 64 + 9 } else { 6 * 64 + 9 };
     ctx.bound("inputs", format!("desc_size 0..=128 + EDGE32 x desc_version {{1,0,2,0xFFFFFFFF}} x every map length 0..={} (not only multiples); byte-marked descriptors; tag flush against a guard page; fills A/B; canonical program = memory_areas, Debug, then next() to the end with len()/size_hint() before every step, a clone after the first item, Debug of the tag", lmax));
     let mut ds: Vec<u32> = (0..=128).collect();
     ds.extend(EDGE32.iter().copied().filter(|&e| e > 128));
@@ -347,7 +347,7 @@ fn run(ctx: &mut Ctx) {
         }
     }
     // histories
-    let depth = if quick { if ctx.dev_profile() { 4 } else { 5 } } else { 6 };
+    let depth = if quick { if ctx.dev_profile() { 4 } else { 5 } } else if ctx.dev_profile() { 6 } else { 7 };
     ctx.bound("histories", format!("all call sequences up to depth {} over {{next, len, size_hint, Debug}} on up to 2 handles plus clone, on desc_size {{40,48,64}} x 0..=3 descriptors and six invalid combinations", depth));
     let mut inputs: Vec<(u32, u32, usize)> = vec![];
     for d in [40u32, 48, 64] {
